@@ -21,8 +21,42 @@ def has_wild(c):
     return any(ch in c for ch in "*?[")
 
 
+def expand_braces(pattern):
+    """csh-style alternatives as glob(3) with GLOB_BRACE reads them: `a{b,c}d` -> abd, acd (nested braces too); a brace
+    without a comma or without its partner stands for itself"""
+    i = pattern.find("{")
+    while i >= 0:
+        depth, j, commas = 0, i, []
+        while j < len(pattern):
+            ch = pattern[j]
+            if ch == "{":
+                depth += 1
+            elif ch == "}":
+                depth -= 1
+                if depth == 0:
+                    break
+            elif ch == "," and depth == 1:
+                commas.append(j)
+            j += 1
+        if j < len(pattern) and commas:
+            cuts = [i] + commas + [j]
+            out = []
+            for a, b in zip(cuts, cuts[1:]):
+                for rest in expand_braces(pattern[:i] + pattern[a + 1:b] + pattern[j + 1:]):
+                    if rest not in out:
+                        out.append(rest)
+            return out
+        i = pattern.find("{", i + 1)
+    return [pattern]
+
+
 def resolve(pattern, dirs):
-    """dirs: set of existing cgroup rel paths ('' is the root). -> sorted list of matches."""
+    """dirs: set of existing cgroup rel paths ('' is the root). -> sorted list of matches (a set: each directory once)."""
+    if "{" in pattern:
+        out = set()
+        for alt in expand_braces(pattern):
+            out.update(resolve(alt, dirs) if "{" not in alt else [])
+        return sorted(out)
     pc = split(pattern)
     out = set()
     for d in dirs:
